@@ -1,6 +1,7 @@
 /-
 Driver for Model/SpreadPoint.lean at α = ℚ:   lake env lean --run PgVerif/Drv/SpreadPoint.lean
   sp [ps] [ls] [logs] p lq lgLast     -> ok n/d | none
+  spd [ps] [ls] [logs] p lq lgLast    -> ok n/d | none          (data as stored: origin guard, then the fold; logs of the guarded data)
   il [ps] [ls] x                      -> ok n/d | none          (interpLin)
   nb [ps] p                           -> ok k                   (nBelow)
 -/
@@ -16,6 +17,13 @@ def step (ts : List String) : String :=
     match ratList ps, ratList ls, ratList logs, parseRat p, parseRat lq, parseRat lg with
     | some ps, some ls, some logs, some p, some lq, some lg =>
       match spreadPoint (α := ℚ) ps ls logs p lq lg with
+      | some r => "ok " ++ showRat r
+      | none => "none"
+    | _, _, _, _, _, _ => "bad-op"
+  | ["spd", ps, ls, logs, p, lq, lg] =>
+    match ratList ps, ratList ls, ratList logs, parseRat p, parseRat lq, parseRat lg with
+    | some ps, some ls, some logs, some p, some lq, some lg =>
+      match spreadPointData (α := ℚ) ps ls logs p lq lg with
       | some r => "ok " ++ showRat r
       | none => "none"
     | _, _, _, _, _, _ => "bad-op"
